@@ -208,6 +208,6 @@ def partitions(tier, seed):
                 if len(h) == 2 and ln == 3:
                     continue
                 P.append(dict(name="rel/%s/%s/len%d" % (shape, "+".join(h), ln), harness="h_rel",
-                              params=dict(shape=shape, hole=list(h), lens=[ln] * len(h)), budget=60 if q else 900, reach=[],
+                              params=dict(shape=shape, hole=list(h), lens=[ln] * len(h)), budget=60 if q else 450, reach=[],
                               bounds="shape %s; symbolic %s of %d chars; operator index symbolic where a version is present" % (shape, "+".join(h), ln)))
     return P
